@@ -15,7 +15,7 @@ pub fn run(rep: &mut Report, tier: &str, seed: u64) {
     let n_programs = if tier == "thorough" { 2500 } else { 200 };
     let mut runner = Runner::new("C04");
     campaign(rep, &mut runner, seed, n_programs, 3, false,
-        &|pi, r| Opts { fragment: false, fault_pct: 0, max_stanzas: 4, allow_print: false, universal: r.chance(1, 2), probe: pi % 4 == 0, scoped_heavy: true, keywordish_names: false },
+        &|pi, r| Opts { fragment: false, fault_pct: 0, max_stanzas: 4, allow_print: false, universal: r.chance(1, 2), probe: pi % 4 == 0, scoped_heavy: true, keywordish_names: false, static_fault: 0 },
         &mut |rep, runner, case, r, _pi| {
             let globals = crate::props::common::supply_globals(r, &case.loaded.program);
             for lazy in [false, true] {
